@@ -46,11 +46,6 @@ def useWild : UseTail → Bool
   | .renames _ => true
   | _ => false
 
-/-- the only-list has a DTIO generic spec: `Use_Stmt.match` raises `InternalError` -/
-def tailAborts : UseTail → Bool
-  | .only es => es.any OEntry.isDtio
-  | _ => false
-
 /-- the argument-count test of `Intrinsic_Function_Reference.match` -/
 def inRange (mn : Nat) (mx : Option Nat) (k : Nat) : Bool :=
   match mx with
@@ -96,8 +91,7 @@ def specInner (std : Std) (σ : Sp) : List Entity → Except Abort Sp
 
 def specStmt (std : Std) (σ : Sp) : Stmt → Except Abort Sp
   | .use _ tail =>
-    if tailAborts tail then .error .internalError
-    else .ok { σ with stack := modHead (fun f => f.record (useLocals tail) (useWild tail)) σ.stack }
+    .ok { σ with stack := modHead (fun f => f.record (useLocals tail) (useWild tail)) σ.stack }
   | .decl ts ents =>
     match specInner std σ ents with
     | .error a => .error a
@@ -420,31 +414,21 @@ theorem logInner_sim (std : Std) : ∀ (ents : List Entity) (st : St) (σ : Sp),
           simp only [Rel2, h1, h2] at this
           exact ih st' σ' this
 
-theorem use_args_abort (tail : UseTail) (h : tailAborts tail = true) :
-    useArgs tail = .error .internalError := by
+theorem use_args_ok (tail : UseTail) :
+    useNames (useArgs tail).1 (useArgs tail).2 = useLocals tail
+      ∧ (useArgs tail).1.isNone = useWild tail := by
   cases tail with
-  | only es => simp only [tailAborts] at h; simp [useArgs, onlyLoop_error es h, Except.map]
-  | plain => simp [tailAborts] at h
-  | onlyNothing => simp [tailAborts] at h
-  | renames es => simp [tailAborts] at h
-
-theorem use_args_ok (tail : UseTail) (h : tailAborts tail = false) :
-    ∃ only ren, useArgs tail = .ok (only, ren) ∧ useNames only ren = useLocals tail
-      ∧ only.isNone = useWild tail := by
-  cases tail with
-  | plain => exact ⟨none, none, rfl, rfl, rfl⟩
-  | onlyNothing => exact ⟨some [], none, rfl, rfl, rfl⟩
+  | plain => exact ⟨rfl, rfl⟩
+  | onlyNothing => exact ⟨rfl, rfl⟩
   | only es =>
-    simp only [tailAborts] at h
-    obtain ⟨l, hl, hm⟩ := onlyLoop_ok es h
-    refine ⟨some l, none, by simp [useArgs, hl, Except.map], ?_, rfl⟩
-    simp only [useNames, useLocals, Option.getD_some, Option.getD_none, List.map_nil, List.append_nil, ← hm,
-      List.map_map]
+    refine ⟨?_, rfl⟩
+    simp only [useArgs, useNames, useLocals, Option.getD_some, Option.getD_none, List.map_nil,
+      List.append_nil, ← onlyLoop_names, List.map_map]
     rfl
   | renames es =>
-    refine ⟨none, some (renameLoop es), rfl, ?_, rfl⟩
-    simp only [useNames, useLocals, Option.getD_some, Option.getD_none, List.map_nil, List.nil_append,
-      ← renameLoop_names, List.map_map]
+    refine ⟨?_, rfl⟩
+    simp only [useArgs, useNames, useLocals, Option.getD_some, Option.getD_none, List.map_nil,
+      List.nil_append, ← renameLoop_names, List.map_map]
     rfl
 
 theorem addUse_sim (st : St) (σ : Sp) (hs : Sim st σ) (mod : Str)
@@ -537,14 +521,10 @@ theorem execStmt_sim (std : Std) (st : St) (σ : Sp) (hs : Sim st σ) (s : Stmt)
     Rel2 (execStmt std st s) (specStmt std σ s) := by
   cases s with
   | use mod tail =>
-    simp only [execStmt, specStmt]
-    by_cases ha : tailAborts tail = true
-    · simp [use_args_abort tail ha, ha, Rel2]
-    · have ha' : tailAborts tail = false := by simpa using ha
-      obtain ⟨only, ren, h1, h2, h3⟩ := use_args_ok tail ha'
-      simp only [h1, ha', Bool.false_eq_true, ↓reduceIte, Rel2]
-      rw [← h2, ← h3]
-      exact addUse_sim st σ hs mod only ren
+    simp only [execStmt, specStmt, Rel2]
+    obtain ⟨h2, h3⟩ := use_args_ok tail
+    rw [← h2, ← h3]
+    exact addUse_sim st σ hs mod _ _
   | decl ts ents =>
     simp only [execStmt, specStmt]
     have := logInner_sim std ents st σ hs
